@@ -98,35 +98,41 @@ def detectMouse (b : Bytes) : Except Panic (Option (Nat × Msg)) :=
     | _ => pure none
   else pure none
 
-/-- `detectOneMsg(b, canHaveMoreData)`: `(w, msg)`; `msg = none` is Go's nil. -/
-def detectOneMsg (T : Table) (lens : List Nat) (b : Bytes) (more : Bool) :
-    Except Panic (Nat × Option Msg) := do
-  match ← detectMouse b with
-  | some (w, m) => pure (w, some m)
-  | none =>
-  match detectReportFocus b with
-  | some (w, m) => pure (w, some m)
-  | none =>
-  match detectBracketedPaste b with
-  | some (w, m) => pure (w, m)
-  | none =>
-  match detectSequence T lens b with
-  | some (w, m) => pure (w, some m)
-  | none =>
-    let b0 ← idx b 0
+/-- the tail of detectOneMsg: NUL, rune run, lone ESC, invalid byte -/
+def detectTail (b : Bytes) (more : Bool) : Except Panic (Nat × Option Msg) :=
+  match idx b 0 with
+  | .error e => .error e
+  | .ok b0 =>
     let alt := b0 == 0x1b
     let i := if alt then 1 else 0
     if i < b.length && b.getD i 1 == 0 then
-      pure (i + 1, some (.key { type := keyNUL, alt := alt }))
+      .ok (i + 1, some (.key { type := keyNUL, alt := alt }))
     else
-      let (i, runes) := runeLoop alt (b.length + 1) b i []
-      if i ≥ b.length && more then pure (0, none)
-      else if runes.length > 0 then
+      let r := runeLoop alt (b.length + 1) b i []
+      if r.1 ≥ b.length && more then .ok (0, none)
+      else if r.2.length > 0 then
         -- (the KeySpace branch is dead in the source: a space ends the rune loop)
-        let ty := if runes == [32] then keySpace else keyRunes
-        pure (i, some (.key { type := ty, runes := runes, alt := alt }))
+        let ty := if r.2 == [32] then keySpace else keyRunes
+        .ok (r.1, some (.key { type := ty, runes := r.2, alt := alt }))
       else if alt && b.length == 1 then
-        pure (1, some (.key { type := keyESC }))
-      else pure (1, some (.unknownByte b0))
+        .ok (1, some (.key { type := keyESC }))
+      else .ok (1, some (.unknownByte b0))
+
+/-- `detectOneMsg(b, canHaveMoreData)`: `(w, msg)`; `msg = none` is Go's nil. -/
+def detectOneMsg (T : Table) (lens : List Nat) (b : Bytes) (more : Bool) :
+    Except Panic (Nat × Option Msg) :=
+  match detectMouse b with
+  | .error e => .error e
+  | .ok (some (w, m)) => .ok (w, some m)
+  | .ok none =>
+  match detectReportFocus b with
+  | some (w, m) => .ok (w, some m)
+  | none =>
+  match detectBracketedPaste b with
+  | some (w, m) => .ok (w, m)
+  | none =>
+  match detectSequence T lens b with
+  | some (w, m) => .ok (w, some m)
+  | none => detectTail b more
 
 end Tea.Input
